@@ -9,7 +9,8 @@ Model of `rten-text/src/normalizers.rs`: `Bert`, `Replace`, `Unicode` (NFC/NFD/N
   `unicode_categories` are PARAMETERS (`Uni`): nothing below depends on what they return.
 * The regex engine of `Replace` is a parameter too: a `Replace` stage carries the list of
   matches `(start, end)` (byte offsets) that `find_iter` yields on the text the stage receives.
-* `Option` results: `none` = the Rust code panics (string slicing off a char boundary / out of
+* `Option` results: `none` = no `(normalized, offsets)` is reported: the Rust code returns a regex
+  runtime error (`Norm.replaceErr`, see `hasRegexErr`) or panics (string slicing off a char boundary / out of
   range, which the regex crate's contract excludes) or a match has `start > end`, which no
   `Range` produced by the regex crate has.
 
@@ -139,6 +140,10 @@ inductive Norm
   | unicode (f : Form)
   /-- `Replace` with replacement `content`; `ms` = regex matches on the text this stage receives. -/
   | replace (content : List Char) (ms : List (Nat × Nat))
+  /-- `Replace` whose `find_iter` yields a runtime `Err` (fancy-regex backtrack limit) on the text
+  this stage receives: `normalize` returns `Err(NormalizeError::RegexError)` through `?`, and so
+  does every enclosing `Sequence`. No `(normalized, offsets)` is reported. -/
+  | replaceErr
   | seq (stages : List Norm)
 
 /-- One round of the `Sequence::normalize` loop: look every offset of the stage's map up in the
@@ -154,6 +159,7 @@ def run (u : Uni) : Norm → List Char → Option (List Char × List Nat)
   | .bert l s, t => some (bert u l s t)
   | .unicode f, t => some (unicode u f t)
   | .replace c ms, t => replace t c ms
+  | .replaceErr, _ => none
   | .seq ns, t => runSeq u ns (blen t) (t, List.range' 0 (blen t))
 
 /-- The loop of `Sequence::normalize` with state `(normalized, offsets)`. -/
@@ -163,6 +169,18 @@ def runSeq (u : Uni) : List Norm → Nat → List Char × List Nat → Option (L
     match run u n st.1 with
     | none => none
     | some r => runSeq u ns srcLen (r.1, composeMap srcLen st.2 r.2)
+end
+
+mutual
+/-- The tree contains a `Replace` stage whose regex fails at run time.  (Such a run reports
+`Err`, not a panic; the two are only distinguished here, `run` gives `none` for both.) -/
+def hasRegexErr : Norm → Bool
+  | .replaceErr => true
+  | .seq ns => anyRegexErr ns
+  | _ => false
+def anyRegexErr : List Norm → Bool
+  | [] => false
+  | n :: ns => hasRegexErr n || anyRegexErr ns
 end
 
 /-! ### Predicates of the property (decidable, used by theorems and witnesses) -/
